@@ -12,7 +12,11 @@ FOS := 0 1 2 3 4 5 6 7
 SIMSYS_LIGHT := simsys/driver.cpp simsys/profiles.cpp $(wildcard simsys/p_*.cpp)
 SIMSYS_HDRS := $(wildcard simsys/*.h) $(wildcard sim/*.h)
 
-all: $(B)/simsys_plain
+all: $(B)/simsys_plain $(B)/simcomp
+
+$(B)/simcomp: simcomp/simcomp.cpp simcomp/simcomp_driver.h sim/batch_driver.h $(QUILL_HDRS)
+	@mkdir -p $(B)
+	$(CXX) -std=c++17 -O1 -g -pthread -I $(REPO)/include -Wno-unused-result $< -o $@
 
 $(B)/plain/vm_fo%.o: simsys/vm_fo.cpp $(SIMSYS_HDRS) $(QUILL_HDRS)
 	@mkdir -p $(B)/plain
